@@ -60,6 +60,41 @@ def impl(case):
     finally:
         reset_pyrates()
 
+def impl_conn(case):
+    """Connectivity(weights, delays, spread) between a source population (x' = k, first ns nodes of the case) and a target
+    population (x' = r_in); the case lists the expansion: edge (s, ns+t) carries W[t][s]."""
+    import warnings
+    warnings.filterwarnings("ignore")
+    import numpy as np
+    from pyr import reset_pyrates, frac
+    reset_pyrates()
+    try:
+        from pyrates import CircuitTemplate, NodeTemplate, OperatorTemplate
+        from pyrates.frontend.template.population import PopulationTemplate, Connectivity
+        nodes = case["nodes"]; ns = sum(1 for n in nodes if n["kind"] == "s"); nt = len(nodes) - ns
+        sop = OperatorTemplate("sa", equations=["x' = k"], variables={"x": "output(0.0)", "k": 1.0})
+        # (a population of >= 2 units with the bare right-hand side `r_in` does not compile: shape check on no_op(r_in))
+        top = OperatorTemplate("ta", equations=["x' = r_in + m"], variables={"x": "output(0.0)", "r_in": "input(0.0)", "m": 0.0})
+        P = PopulationTemplate("p", NodeTemplate("SN", operators=[sop]), ns,
+                               params={"sa/k": [float(Fr(n["k"])) for n in nodes[:ns]], "sa/x": [float(Fr(n["x0"])) for n in nodes[:ns]]})
+        Q = PopulationTemplate("q", NodeTemplate("TN", operators=[top]), nt, params={"ta/x": [float(Fr(n["x0"])) for n in nodes[ns:]]})
+        W = np.zeros((nt, ns))
+        for s_, t_, w, ds in case["edges"]:
+            W[t_ - ns, s_] = float(Fr(w))
+        d, sp = case["edges"][0][3]
+        conn = Connectivity(source="p/sa/x", target="q/ta/r_in", weights=W, delays=float(Fr(d)), spread=float(Fr(sp)))
+        c = CircuitTemplate("c", populations={"p": P, "q": Q}, connections=[conn])
+        dt = float(Fr(case["dt"]))
+        try:
+            r = c.run(simulation_time=case["steps"] * dt, step_size=dt, solver="euler", outputs={"p": "p/sa/x", "q": "q/ta/x"},
+                      float_precision="float64", backend="default", clear=True, verbose=False)
+        except (IndexError, ValueError, KeyError, TypeError, AttributeError, NameError) as e:
+            return {"raised": type(e).__name__, "msg": str(e)[:160]}
+        pv = np.asarray(r["p"].values).reshape(case["steps"], ns); qv = np.asarray(r["q"].values).reshape(case["steps"], nt)
+        return [[frac(v) for v in pv[j]] + [frac(v) for v in qv[j]] for j in range(case["steps"])]
+    finally:
+        reset_pyrates()
+
 # ---------------------------------------------------------------------------------------------- generator
 def rhe(q):
     fl = q.numerator // q.denominator
@@ -211,6 +246,23 @@ def gen_case(rng, kind="valid"):
             return case
     raise RuntimeError("generator could not produce an exactly representable case")
 
+def gen_conn(rng):
+    """population circuit as its expansion: ns source units, nt target units, a full weight matrix, one (delay, spread);
+    pairs include those where truncation and rounding of (d/s)^2 differ"""
+    for _ in range(200):
+        dt = Fr(1, rng.choice([4, 8]))
+        ns, nt = rng.randint(1, 3), rng.randint(1, 3)
+        nodes = [dict(kind="s", cls=0, k=str(rng.randint(1, 3)), x0=str(Fr(rng.randint(1, 6), 2))) for _ in range(ns)]
+        nodes += [dict(kind="t", cls=0, k="0", x0=str(Fr(rng.randint(-4, 4), 2))) for _ in range(nt)]
+        d, sp, n = rng.choice(pairs(dt))
+        edges = [[s, ns + t, str(Fr(rng.choice([-3, -2, -1, 0, 1, 2, 3]), 2)), [str(d), str(sp)]] for t in range(nt) for s in range(ns)]
+        if all(Fr(e[2]) == 0 for e in edges):
+            continue
+        case = dict(dt=str(dt), steps=rng.randint(8, 12), vectorize=True, dde=0, nodes=nodes, edges=edges, connectivity=True)
+        if exact_ok(case):
+            return case
+    raise RuntimeError("generator could not produce an exactly representable Connectivity case")
+
 def nontrivial(case):
     return len({tuple(e[3]) for e in case["edges"] if e[3] != "nokey" and len(e[3]) == 2}) >= 2
 
@@ -221,6 +273,7 @@ From PV Require Import Ring Gamma Corr.
 Import ListNotations.
 Definition okI (p : gcircuit * nat * res) := let '(c, n, r) := p in res_eqb (gimpl_run c n) r.
 Definition okS (p : gcircuit * nat * res) := let '(c, n, r) := p in res_eqb (Ok (gspec_run c n)) r.
+Definition okC (p : gcircuit * nat * res) := let '(c, n, r) := p in res_eqb (Ok (gconn_run c n)) r.
 Definition gd' (g : gcircuit -> bool) (p : gcircuit * nat * res) := let '(c, n, r) := p in g c.
 """
 
@@ -257,6 +310,20 @@ def model_compare(ctx, cases, outs, tag):
             gfalse[g] += [s + i for i in l]
     return badI, badS, nwf, gfalse
 
+def conn_compare(ctx, cases, outs, tag):
+    """Connectivity cases: -> (bad vs the cascade model gconn_run, bad vs Spec, g_conn false)"""
+    badC, badS, gf = [], [], []
+    shard = 30
+    for s in range(0, len(cases), shard):
+        terms = [coq_case(c, o) for c, o in zip(cases[s:s + shard], outs[s:s + shard])]
+        body = ("Definition cases := " + clist(terms) + ".\n"
+                "Eval vm_compute in (mismatches okC cases).\nEval vm_compute in (mismatches okS cases).\n"
+                "Eval vm_compute in (mismatches (gd' g_conn) cases).\n")
+        ls = parse_nat_lists(coq_eval(ctx, f"c11c_{tag}_{s}", HEADER, body))
+        assert len(ls) == 3, ls
+        badC += [s + i for i in ls[0]]; badS += [s + i for i in ls[1]]; gf += [s + i for i in ls[2]]
+    return badC, badS, gf
+
 def model_outputs(ctx, case, tag):
     body = (f"Definition c := {coq_circuit(case)}.\nEval vm_compute in (impl_params c, spec_params c).\n"
             f"Eval vm_compute in (gimpl_run c {cnat(case['steps'])}).\nEval vm_compute in (gspec_run c {cnat(case['steps'])}).\n")
@@ -266,9 +333,11 @@ def model_outputs(ctx, case, tag):
         return f"(model evaluation failed: {e})"
 
 def fails(ctx, case, tag):
-    r = run_impl(ctx, "c11", "impl", [case], nworkers=1)[0]
+    r = run_impl(ctx, "c11", "impl_conn" if case.get("connectivity") else "impl", [case], nworkers=1)[0]
     if isinstance(r, dict) and "err" in r:
         return True, r
+    if case.get("connectivity"):
+        return bool(conn_compare(ctx, [case], [r], tag)[1]), r
     _, badS, _, _ = model_compare(ctx, [case], [r], tag)
     return bool(badS), r
 
@@ -299,9 +368,16 @@ def check(ctx):
         cases += [gen_case(ctx.rng, "chains") for _ in range(n_valid // 5)]
         for kind in ("plain", "dde", "kernel", "shared", "perm"):
             cases += [gen_case(ctx.rng, kind) for _ in range(n_viol)]
-    outs = run_impl(ctx, "c11", "impl", cases, per_case_timeout=120)
+        cases += [gen_conn(ctx.rng) for _ in range(n_valid // 4)]
+    is_conn = [bool(c.get("connectivity")) for c in cases]
+    ei = [i for i in range(len(cases)) if not is_conn[i]]; ci = [i for i in range(len(cases)) if is_conn[i]]
+    outs = [None] * len(cases)
+    for i, r in zip(ei, run_impl(ctx, "c11", "impl", [cases[i] for i in ei], per_case_timeout=120)):
+        outs[i] = r
+    for i, r in zip(ci, run_impl(ctx, "c11", "impl_conn", [cases[i] for i in ci], per_case_timeout=120)):
+        outs[i] = r
     crashed = [i for i, r in enumerate(outs) if isinstance(r, dict) and "err" in r]
-    good = [i for i in range(len(cases)) if i not in crashed]
+    good = [i for i in ei if i not in crashed]
     badI, badS, nwf, gfalse = model_compare(ctx, [cases[i] for i in good], [outs[i] for i in good], "main")
     badI = [good[i] for i in badI]; badS = [good[i] for i in badS]; nwf = [good[i] for i in nwf]
     assert not nwf, f"generator produced ill-formed circuits: {nwf[:5]}"
@@ -309,6 +385,13 @@ def check(ctx):
     for g in GUARDS:
         for i in gfalse[g]:
             guard_viol.setdefault(good[i], []).append(g)
+    cgood = [i for i in ci if i not in crashed]
+    badC, badSc, gcf = conn_compare(ctx, [cases[i] for i in cgood], [outs[i] for i in cgood], "conn")
+    badI += [cgood[i] for i in badC]; badS += [cgood[i] for i in badSc]
+    for i in gcf:
+        guard_viol.setdefault(cgood[i], []).append("g_conn")
+    good = good + cgood
+    ctx.note(f"Connectivity(delays, spread) stream: {len(ci)} population circuits, mismatches vs the cascade model {len(badC)}, vs Spec {len(badSc)}")
     in_guard = [i for i in good if i not in guard_viol]
     ctx.note(f"E1: {len(cases)} circuits ({len(in_guard)} inside all guards, {len(guard_viol)} guard-violating on purpose); "
              f"impl-vs-Impl mismatches {len(badI)}, impl-vs-Spec mismatches {len(badS)} (inside the guards "
@@ -322,7 +405,7 @@ def check(ctx):
                    show=lambda c: dict(implementation_output=fails(ctx, c, "show")[1], model_output=model_outputs(ctx, c, "show")))
     nt = {canon(c) for i, c in enumerate(cases) if nontrivial(c) and i in in_guard}
     orders = sorted({rhe((Fr(e[3][0]) / Fr(e[3][1])) ** 2) for c in cases for e in c["edges"] if e[3] != "nokey" and len(e[3]) == 2})
-    hist = dict(vectorized=sum(1 for c in cases if c["vectorize"]), dde_approx=sorted({c.get("dde", 0) for c in cases}),
+    hist = dict(connectivity=len(ci), vectorized=sum(1 for c in cases if c["vectorize"]), dde_approx=sorted({c.get("dde", 0) for c in cases}),
                 in_guard=len(in_guard), guard_violating={g: len(gfalse[g]) for g in GUARDS}, orders=orders,
                 pairs=len({tuple(e[3]) for c in cases for e in c["edges"] if e[3] != "nokey" and len(e[3]) == 2}),
                 same_order_different_pairs=sum(1 for c in cases if len({tuple(e[3]) for e in c["edges"] if e[3] != "nokey" and len(e[3]) == 2}) >
@@ -338,7 +421,8 @@ def check(ctx):
                    extra=dict(input_distribution=hist, impl_vs_model_mismatches=len(badI), impl_vs_spec_mismatches=len(badS)),
                    trusted_base=["numpy float64 arithmetic is exact on the generated dyadic data (the generator keeps every value of the explicit "
                                  "system below 2^46 significant bits; results are compared as exact rationals)"],
-                   assumptions=["fixed-step Euler only (adaptive solvers are not compared: no exact arithmetic); Connectivity cascades "
-                                "(_add_matrix_delay) and the vector field at arbitrary chain states are not compared",
+                   assumptions=["fixed-step Euler only (adaptive solvers are not compared: no exact arithmetic); the vector field at arbitrary "
+                                "chain states is not compared; Connectivity(delays, spread) is compared through the expansion of the population "
+                                "circuit into one edge per matrix entry (full matrices, one (delay, spread) per connection, no coupling functions)",
                                 "vectorized: two or more pass-through (undelayed) slots on one buffered source are outside the model",
                                 "guards: " + ", ".join(GUARDS)])
